@@ -199,6 +199,7 @@ def pool_c10() -> list[Span]:
         span("B", 0, None, 1, 1, name="W2"),
         span("B", 1, "ghost", 3, 4, name="W2"),
         span("B", 2, "B.s0", 2, 2, name="W2", eid="A.s1"),              # the same span id re-used by another trace
+        span("C", 0, "", 0, 1, name="W2"),                               # a root whose parent id is the empty string (OTLP/JSON)
     ]
 
 
@@ -796,6 +797,12 @@ def domain_c09(tier: str, rng: random.Random) -> Iterable[dict[str, Any]]:
         par2, lab2 = par + (par[leaf] if par[leaf] is not None else 0,), lab + (lab[leaf],)
         c = tree_spans("T3", par2, lab2, "W1")
         yield {"spans": enc_spans(a + bsp + c), "batch": rng.choice(batches)}
+    # three large traces of one shape (a root with 3999 leaves each): more rows per root batch than any fetch size used internally
+    big = []
+    for k in range(3):
+        big += [span(f"L{k}", 0, None, 0, 1, etype="root", name="W1")] + [span(f"L{k}", i, f"L{k}.s0", 0, 1, etype="leaf", name="W1") for i in range(1, 4000)]
+    for b in (1, 1000):
+        yield {"spans": enc_spans(big), "batch": b}
     # the documented collision family (known finding D6): parent type + child digest glued together
     glued = "A" + xxhash.xxh64_hexdigest("B")
     yield {"spans": enc_spans(tree_spans("T1", (None, 0), ("A", "B"), "W1") + tree_spans("T2", (None,), (glued,), "W1")), "batch": 1000}
@@ -912,6 +919,13 @@ def domain_c15(tier: str, rng: random.Random) -> Iterable[dict[str, Any]]:
                 if n == maxlen and tier == "quick" and rng.random() < 0.5:
                     continue
                 yield {"spans": enc_spans(st), "batch": rng.choice([1, 2, 1000]), "history": [list(h) for h in hist]}
+    # a span delivered twice in a row (an exporter retry): both copies in one batch / split over two batches
+    rep = chain("A", 3, "W1")
+    rep = rep[:2] + [rep[1]] + rep[2:] + chain("B", 2, "W1")
+    for n in range(2, maxlen + 1):
+        for hist in itertools.product(flags, repeat=n):
+            for b in (1000, 2):
+                yield {"spans": enc_spans(rep), "batch": b, "history": [list(h) for h in hist]}
 
 
 MODES = {"c10": (run_c10, domain_c10), "c11": (run_c11, domain_c11), "c12": (run_c12, domain_c12), "c09": (run_c09, domain_c09),
